@@ -1342,7 +1342,7 @@ func c19RetransmitDuringSlowAllocate() *sched.Scenario {
 			c := w.NewClient("c1")
 			var nt notes
 			vsched.Go("client", func() {
-				c.Do(wire.Allocate, udp) // learns the nonce ...
+				c.Do(wire.Allocate, udp)        // learns the nonce ...
 				c.Do(wire.Refresh, lifetime(0)) // ... and leaves nothing behind
 				c.Sock.Drain()
 				vsched.Mark()
@@ -1440,9 +1440,19 @@ func c19SlowGeneratorShortLifetime(gen time.Duration) *sched.Scenario {
 		}}
 }
 
+// heavy: the scenarios with tens of thousands of schedules. They run last (all shards agree on the order), so
+// that on an overloaded machine the part's budget cuts into them and not into the many small scenarios behind them.
+var heavy = map[string]bool{
+	"c02-peer-data-vs-expiry-vs-refresh0": true, "c15-expiry-vs-permission-and-channel-timers": true,
+	"c16-two-binds-one-id": true, "c16-inbound-connection-vs-reallocation": true,
+	"c19-error-response-prepared-before-a-slow-generator": true, "c06-reconnect-from-the-same-port-vs-old-connection-cleanup": true,
+	"c04-two-stream-clients-isolated": true, "K2-two-writers-one-new-peer": true,
+}
+
 func run(t *testing.T, prop string, scs ...*sched.Scenario) {
 	r := rep.New(prop)
 	defer r.Write()
+	sort.SliceStable(scs, func(i, j int) bool { return !heavy[scs[i].Name] && heavy[scs[j].Name] })
 	for _, sc := range scs {
 		if only := os.Getenv("VERIF_SCENARIO"); only != "" && only != sc.Name {
 			continue
@@ -1459,13 +1469,20 @@ func TestC19Sched(t *testing.T) {
 	// goroutines of the allocation that held the 5-tuple before are still winding down
 	run(t, "C19", c19RetransmitDuringSlowAllocate(), c19ErrorPreparedBeforeSlowGenerator(), c06Realloc(), c19SlowGeneratorShortLifetime(500*time.Millisecond), c19SlowGeneratorShortLifetime(2*time.Second))
 }
-func TestC07Sched(t *testing.T) { run(t, "C07", c07RefreshVsExpiry("perm"), c07RefreshVsExpiry("chan")) }
-func TestC06Sched(t *testing.T) { run(t, "C06", c06Realloc(), c06ReallocVsTimer(), c06Reconnect(), c06RefreshVsExpiry()) }
+func TestC07Sched(t *testing.T) {
+	run(t, "C07", c07RefreshVsExpiry("perm"), c07RefreshVsExpiry("chan"))
+}
+func TestC06Sched(t *testing.T) {
+	run(t, "C06", c06Realloc(), c06ReallocVsTimer(), c06Reconnect(), c06RefreshVsExpiry())
+}
+
 // c06Reconnect is an isolation matter as well: the party that no longer owns the 5-tuple (the old connection) acts on the allocation now occupying it.
 func TestC05Sched(t *testing.T) { run(t, "C05", c05StreamRelayVsResponse()) }
 
 func TestC04Sched(t *testing.T) { run(t, "C04", c04TwoConns(), c06Reconnect()) }
-func TestC16Sched(t *testing.T) { run(t, "C16", c16TwoBinds(), c16BindVsTimeout(), c16FullDuplex(), c16InboundVsRealloc(), c16SlowDialBindWindow()) }
+func TestC16Sched(t *testing.T) {
+	run(t, "C16", c16TwoBinds(), c16BindVsTimeout(), c16FullDuplex(), c16InboundVsRealloc(), c16SlowDialBindWindow())
+}
 func TestC15Sched(t *testing.T) {
 	run(t, "C15", c15SlowCallback("alloc"), c15SlowCallback("perm"), c15SlowCallback("chan"), c15SlowCallbackReq("perm", "chanbind"), c15EqualDeadlines(), c15SlowDial("other"), c15SlowDial("own"), c15RequestDuringSlowTeardown(), c15ServerCloseVsRefresh(), c15ServerCloseVsDialCompletion(), c15ServerCloseDuringSlowAllocate(), c15Realloc())
 }
